@@ -93,7 +93,15 @@ Definition concretize (v256 : bool) (p : srv_params) (prev : bytes) (sym : N) (v
   | 12 => let m := bs "r=" ++ tail in (chal m, sent_first v m)
   | 13 => let m := bs "r=" ++ firstn 1 (v_cn v) ++ tail in (chal m, sent_first v m)
   | 14 => let m := bs "r=" ++ removelast (v_cn v) ++ tail in (chal m, sent_first v m)
-  | 15 => let m := bs "r=" ++ v_cn v ++ tail in (chal m, sent_first v m)     (* the valid server-final of an EARLIER exchange of this dialogue, resent *)
+  | 15 => let m := bs "r=" ++ v_cn v ++ tail in (chal m, sent_first v m)
+  (* otherwise valid server-first with an unusual iteration count text *)
+  | 16 => let m := bs "r=" ++ v_cn v ++ sp_nonce p ++ bs ",s=" ++ b64enc (sp_salt p) ++ bs ",i=0" in (chal m, sent_first v m)
+  | 17 => let m := bs "r=" ++ v_cn v ++ sp_nonce p ++ bs ",s=" ++ b64enc (sp_salt p) ++ bs ",i=-1" in (chal m, sent_first v m)
+  | 18 => let m := bs "r=" ++ v_cn v ++ sp_nonce p ++ bs ",s=" ++ b64enc (sp_salt p) ++ bs ",i=00" in (chal m, sent_first v m)
+  | 19 => let m := bs "r=" ++ v_cn v ++ sp_nonce p ++ bs ",s=" ++ b64enc (sp_salt p) ++ bs ",i=+5" in (chal m, sent_first v m)
+  | 20 => let m := bs "r=" ++ v_cn v ++ sp_nonce p ++ bs ",s=" ++ b64enc (sp_salt p) ++ bs ",i=" in (chal m, sent_first v m)
+  | 21 => let m := bs "r=" ++ v_cn v ++ sp_nonce p ++ bs ",s=" ++ b64enc (sp_salt p) ++ bs ",i=4096x" in (chal m, sent_first v m)
+  | 22 => let m := bs "r=" ++ v_cn v ++ sp_nonce p ++ bs ",s=" ++ b64enc (sp_salt p) ++ bs ",i=99999999999999999999" in (chal m, sent_first v m)     (* the valid server-final of an EARLIER exchange of this dialogue, resent *)
   | _ => (chal prev, v)
   end.
 
@@ -229,6 +237,19 @@ Definition ref_server_run (v256 plus : bool) (cbname cbdata snonce acct npass sa
   match scram_server_first c (fun u => if bytes_eqb u acct then Some a else None) cfirst with
   | None => None
   | Some (x, sf) => Some (sf, scram_server_final (hash_of v256) (hmac_of v256) c x cfinal)
+  end.
+
+(* mail.Client: the dials of one Client value.  Each dial builds its mechanism from the configuration current at that
+   moment (auth type, user name, password, TLS state of the new connection: [mk k] for dial k) and starts it in the fresh
+   state [s0] - unless auth() kept the mechanism of the first dial ([keeps], Gen.client_auth_keeps_mechanism), in which
+   case later dials reuse that value with its state. *)
+Fixpoint client_dials {St} (keeps : bool) (mk : nat -> mech St) (lad : bool) (s0 : St) (k : nat) (scripts : list (list reply))
+  : list run_obs :=
+  match scripts with
+  | [] => []
+  | sc :: rest =>
+      if keeps then auth_seq (mk 0%nat) lad s0 scripts
+      else obs_of (auth (mk k) lad false s0 sc) :: client_dials keeps mk lad s0 (S k) rest
   end.
 
 (* the configuration read from the working tree (T1) *)
